@@ -195,6 +195,7 @@ type Exec struct {
 	objCount    uint64
 	panicVal    string
 	spawnCount  int
+	mapDescending bool
 	exitedKey   uint64 // state-key contribution of goroutines that have exited (removed from gs)
 	CollectKeys bool
 	invariant   func() string // evaluated by the scheduler in every quiescent state
@@ -437,6 +438,15 @@ func SetInvariant(f func() string) {
 	e := current()
 	e.mu.Lock()
 	e.invariant = f
+	e.mu.Unlock()
+}
+
+// SetMapDescending makes every instrumented map iteration of this execution run in
+// descending key order instead of ascending (both are legal Go behaviours).
+func SetMapDescending(on bool) {
+	e := current()
+	e.mu.Lock()
+	e.mapDescending = on
 	e.mu.Unlock()
 }
 
